@@ -256,7 +256,7 @@ def validate(ctx, hists, hdr, recs, tag="tv", nproc=6, timeout=900):
         cf = os.path.join(ctx.scratch, "%s_cases_%d.json" % (tag, i))
         json.dump(ch, open(cf, "w"))
         r = vlib.tlc(os.path.join(LSPEC, "LmmTrace.tla"), env={"LMM_CASES": cf}, timeout=timeout,
-                     workers=max(2, vlib.NCPU // nproc), xmx="2g")
+                     workers=2, xmx="2g")
         _check_tlc(r, "trace validation (%s chunk %d)" % (tag, i))
         exp_states = sum(len(c["ops"]) + 1 for c in ch)
         if r.distinct != exp_states:
